@@ -30,14 +30,34 @@ def _kaisa_case(draw, worlds):
             'hp': {'factor_update_steps': fus, 'inv_update_steps': ius, 'damping': 0.01, 'factor_decay': 0.9,
                    'kl_clip': draw(st.sampled_from([1e-3, 1e30])), 'lr': 0.1}}
     case.update(draw(placement(W, method, prediv)))
+    # optionally a LambdaParamScheduler over a constant interval (stepped on every rank between iterations)
+    sched = {}
+    if draw(st.integers(0, 3)) == 0:
+        for key, v in (('factor_update_steps', fus), ('inv_update_steps', ius)):
+            if not isinstance(v, dict) and draw(st.integers(0, 3)) > 0:
+                sched[key] = {'table': draw(st.lists(st.sampled_from([1, 2, 1, 1.5, 3]), min_size=1, max_size=4))}
+    if sched:
+        case['scheduler'] = sched
+        if W > 1 and draw(st.booleans()):
+            # MEM-OPT (every layer has one gradient worker): the strategy under which a load implies no collective
+            case.update({'k': 1, 'fraction': draw(st.sampled_from(['float', 'MEM']))})
     # program with step-count bookkeeping so that every generated program is valid
     n = draw(st.integers(1, 10))
     steps = 0
     prog = []
     ranks_subset = st.lists(st.integers(0, W - 1), unique=True, max_size=W).map(sorted)
     for i in range(n):
-        kind = draw(st.sampled_from(['train', 'train', 'train', 'eval', 'state_dict', 'memory_usage', 'reset_batch', 'load']))
-        if kind == 'train':
+        kind = draw(st.sampled_from(['train', 'train', 'train', 'eval', 'state_dict', 'memory_usage', 'reset_batch', 'load', 'reload_live']
+                                    + (['sched_step', 'sched_step'] if sched else [])))
+        if kind == 'sched_step':
+            prog.append({'op': 'sched_step'})
+        elif kind == 'reload_live':
+            if steps == 0:
+                continue
+            # a rank reloading its own state: on all ranks, or - where the load implies no collective (MEM-OPT, world of one) - on a subset
+            subset_ok = case['k'] == 1 or W == 1
+            prog.append({'op': 'reload_live', 'ranks': draw(st.one_of(st.none(), ranks_subset)) if subset_ok else None})
+        elif kind == 'train':
             prog.append({'op': 'train', 'seed': draw(st.integers(0, 999))})
             steps += 1
         elif kind == 'eval':
@@ -47,11 +67,16 @@ def _kaisa_case(draw, worlds):
         else:
             refresh_next = steps % _hp_at(ius, steps) == 0
             factor_next = steps % _hp_at(fus, steps) == 0
-            ci = draw(st.booleans()) if refresh_next else True
-            inc = draw(st.sampled_from([True, True, False])) if (refresh_next and factor_next) else True
+            ci = draw(st.booleans()) if (refresh_next and not sched) else True
+            inc = draw(st.sampled_from([True, True, False])) if (refresh_next and factor_next and not sched) else True
             prog.append({'op': 'load', 'compute_inverses': ci, 'include_factors': inc})
     if not any(o['op'] == 'train' for o in prog):
         prog.append({'op': 'train', 'seed': 1})
+    if sched and (case['k'] == 1 or W == 1) and draw(st.integers(0, 3)) > 0:
+        # the interesting neighbourhood on purpose: the interval changes between two iterations and only some ranks reload in between
+        for _ in range(draw(st.integers(1, 3))):
+            prog += [{'op': 'train', 'seed': draw(st.integers(0, 999))}, {'op': 'sched_step'},
+                     {'op': 'reload_live', 'ranks': draw(ranks_subset)}, {'op': 'train', 'seed': draw(st.integers(0, 999))}]
     case['program'] = prog
     case['schedule'] = draw(st.lists(st.integers(0, 63), max_size=250))
     case['flip'] = draw(st.booleans())
@@ -89,6 +114,7 @@ def _gpt_case(draw):
                    'kl_clip': draw(st.sampled_from([1e30, 1e-3])), 'lr': 0.1},
             'dir_mode': draw(st.booleans()), 'program': prog,
             'param_dtype': draw(st.sampled_from(['float32', 'float32', 'bfloat16', 'float16'])),
+            'heuristic': draw(st.sampled_from(['compute', 'compute', 'memory'])),
             'factor_dtype': draw(st.sampled_from([None, None, 'float32', 'bfloat16'])),
             'inv_dtype': draw(st.sampled_from([None, None, 'float64'])),
             'schedule': draw(st.lists(st.integers(0, 63), max_size=250)), 'flip': draw(st.booleans())}
@@ -98,7 +124,7 @@ class C03(Prop):
     id = 'C03'
     title = 'All ranks issue matching collectives and no rank ever stalls'
     rule = ('Hypothesis draws operation programs of 1-10 ops {train iteration (accumulation_steps micro-batches + gradient averaging + step), '
-            'eval-mode pass, state_dict / memory_usage / reset_batch on all ranks or a drawn subset, checkpoint save+load into a fresh '
+            'eval-mode pass, state_dict / memory_usage / reset_batch on all ranks or a drawn subset, a rank reloading its own state (on a subset only under MEM-OPT / W=1, where no collective is implied), LambdaParamScheduler.step() over a constant interval, checkpoint save+load into a fresh '
             'preconditioner on all ranks with compute_inverses / include_factors drawn subject to the documented requirement} for KAISA on '
             'W in {1,2,3,4,6,8} simulated ranks with every divisor as gradient-worker count, both methods, hook/no-hook, bucketed/unbucketed, '
             'symmetric/dense, constant or table-driven intervals incl. non-multiples, plus (kind "gpt") GPT-NeoX programs over pipe x data x model '
@@ -112,7 +138,7 @@ class C03(Prop):
     examples = {'quick': 100, 'thorough': 600}
     shards = {'quick': 4, 'thorough': 16}
     shrink_budget_s = {'quick': 30.0, 'thorough': 180.0}
-    required_labels = {'quick': ['nontrivial=True', 'has_load=True', 'subset_query=True', 'strategy=HYBRID', 'kind=gpt', 'kind=kaisa'],
+    required_labels = {'quick': ['nontrivial=True', 'has_load=True', 'subset_query=True', 'strategy=HYBRID', 'kind=gpt', 'kind=kaisa', 'has_sched=True', 'subset_reload=True'],
                        'thorough': ['nontrivial=True', 'has_load=True', 'subset_query=True', 'strategy=HYBRID', 'strategy=MEM', 'strategy=COMM']}
 
     enum_shards = {'quick': 4, 'thorough': 16}
@@ -228,6 +254,8 @@ class C03(Prop):
         has_load = 'load' in kinds
         labels = {'kind': 'kaisa', 'W': W, 'strategy': strat, 'method': case['method'], 'bucketed': case['cap'] > 0,
                   'symmetry': case['symmetry'], 'in_hook': case['in_hook'], 'has_load': has_load, 'subset_query': subset,
+                  'has_sched': bool(case.get('scheduler')) and 'sched_step' in kinds,
+                  'subset_reload': any(o['op'] == 'reload_live' and o.get('ranks') is not None and len(o['ranks']) < W for o in prog),
                   'eval_between': eval_between, 'non_refresh_step': non_refresh, 'len': len(prog)}
         res = kaisa.run_sim(case, prog, case['schedule'], case['flip'])
         if res.timed_out:
